@@ -19,7 +19,14 @@ CASE_TIMEOUT = cc.CASE_TIMEOUT
 LEAN_MODULES = ["AsynqModel.Theorems.C20"]
 THEOREMS = ["AsynqModel.Core." + n for n in ['C20_keepdeps_inert', 'C20_keepdeps_inert_conv', 'C20_keepdeps_complete', 'C20_maxstack_inert', 'C20_maxstack_trace', 'C20_cfg_reads', 'C20_guard_counterexample']]
 MIX = [("full", 4), ("sync", 2), ("yield_err", 2), ("yield_ctx", 1), ("nonasync", 1)]
-RULE = ("grammar-generated task programs (profiles %s) each run under the default options and under a random subset of "
+RULE = ("family optprog: 28 hand-written programs over rarely used public API (checks/optprogs.py: awaiting a BATCH object, "
+        "batch.flush() / item.value() inside tasks, AsyncEventHook, call_with_context, DebugBatchItem / debug.sync(), async "
+        "generators, deduplicate, the caches, proxies and async_call, scoped values, asynq.mock.patch, result(), .asyncio() under "
+        "asyncio.run, exotic failures, NonAsyncContext, batch.cancel(), synchronous re-entry, aretry, the collection helpers, "
+        "AsyncTimer, method kinds, arguments with awkward repr(), every class of future, flush hooks calling asynq, a second "
+        "thread, a 60-deep and 120-wide program, the diagnostic API) each under the profiling pair, everything flipped, all dumps, "
+        "single options and random subsets; then "
+        "grammar-generated task programs (profiles %s) each run under the default options and under a random subset of "
         "the boolean debug options with a scripted clock (1 us .. 2 h per reading), both builds; non-trivial = at least 2 "
         "tasks and 1 scheduler flush; distinct by hash of (configuration, programs, options)" % ", ".join(p for p, _ in MIX))
 TRUSTED = cc.TRUSTED_CORE + ["the scripted clock replaces asynq.scheduler.utime (module attribute)"]
@@ -56,6 +63,33 @@ def gen_opts(rng):
     return opts
 
 
+def optprog_cases(tier, rng):
+    """family `optprog` (checks/optprogs.py): every hand-written program over rarely used public API under: the profiling
+    pair COLLECT_PERF_STATS + KEEP_DEPENDENCIES and each of the two alone, everything flipped, every DUMP_* flag at once,
+    each boolean option alone (quick: a rotating third of them) and random subsets from gen_opts"""
+    from checks import optprogs
+    dumps = [o for o in BOOL_OPTS if o.startswith("DUMP_")]
+    cases = []
+    for name in sorted(optprogs.PROGRAMS):
+        def clock():
+            return [rng.choice(STEPS[:6] if rng.random() < 0.7 else STEPS) for _ in range(rng.randint(1, 4))]
+        sets = [{"COLLECT_PERF_STATS": True, "KEEP_DEPENDENCIES": True}, {"COLLECT_PERF_STATS": True}, {"KEEP_DEPENDENCIES": True},
+                {o: (o not in ("DUMP_PRE_ERROR_STATE", "ENABLE_COMPLEX_ASSERTIONS")) for o in BOOL_OPTS},
+                dict({o: True for o in dumps}, SCHEDULER_STATE_DUMP_INTERVAL=0),
+                dict({o: True for o in dumps}, COLLECT_PERF_STATS=True, KEEP_DEPENDENCIES=True, SCHEDULER_STATE_DUMP_INTERVAL=0)]
+        singles = [{o: (o not in ("DUMP_PRE_ERROR_STATE", "ENABLE_COMPLEX_ASSERTIONS"))} for o in BOOL_OPTS
+                   if o not in ("COLLECT_PERF_STATS", "KEEP_DEPENDENCIES")]
+        if tier == "quick":
+            rng.shuffle(singles)
+            singles = singles[:6]
+        sets += singles
+        for o in sets:
+            o["_clock"] = clock()
+        sets += [gen_opts(rng) for _ in range(4 if tier == "quick" else 40)]
+        cases += [{"special": "optprog", "prog": name, "opts": o} for o in sets]
+    return cases
+
+
 def plan(tier, seed):
     rng = random.Random(seed * 1000003 + 20)
     n = 1200 if tier == "quick" else 20000
@@ -74,10 +108,13 @@ def plan(tier, seed):
             c["opts"]["COLLECT_PERF_STATS"] = True
         c["hook"] = "peek"
         cases.append(c)
-    return cases
+    return cc.corpus(PID) + optprog_cases(tier, random.Random(seed * 1000003 + 21)) + cases[len(cc.corpus(PID)):]
 
 
 def run_case(case):
+    if case.get("special") == "optprog":
+        from checks import optprogs
+        return optprogs.run_optprog(case)
     from corerun import run_program
     import hashlib
     import json
@@ -115,6 +152,8 @@ def shrink(case):
     if len(opts["_clock"]) > 1:
         yield dict(case, opts=dict(opts, _clock=opts["_clock"][:1]))
         yield dict(case, opts=dict(opts, _clock=[max(opts["_clock"])]))
+    if case.get("special") == "optprog":
+        return
     for c in cc.shrink_case(case):
         yield c
 
@@ -122,6 +161,8 @@ def shrink(case):
 def neighbours(case, rng):
     for _ in range(16):
         yield dict(case, opts=gen_opts(rng))
+    if case.get("special") == "optprog":
+        return
     for c in cc.neighbours_case(case, rng, [p for p, _ in MIX]):
         c["opts"] = case["opts"]
         yield c
@@ -132,6 +173,8 @@ def signature(case, v):
     sig = v["spec"]
     if case.get("hook"):
         sig += "/hook-" + case["hook"]
+    if case.get("special") == "optprog":
+        sig += "/program-" + case["prog"]
     if len(opts) == 1:
         sig += "/" + opts[0]
     return sig
